@@ -19,7 +19,7 @@ use std::sync::Mutex;
 use std::sync::atomic::{AtomicU64, Ordering};
 
 const AUX_FILE: (&str, &str) = ("other", "fragment Other on User { name }\n");
-const FILES: [(&str, &str); 15] = [
+const FILES: [(&str, &str); 17] = [
     ("one-query", "query getUser { u { id } }\n"),
     ("two-operations", "query getUser { u { id } }\nmutation setIt { ping }\n"),
     ("query-and-fragment", "query getUser { u { ...userBits } }\nfragment userBits on User { id name }\n"),
@@ -36,6 +36,9 @@ const FILES: [(&str, &str); 15] = [
     ("same-name-with-import", "#import Other from \"./other.graphql\"\nfragment Post on User { id }\nquery Post { u { ...Post ...Other } }\n"),
     ("same-name-operation-first-with-import", "#import Other from \"./other.graphql\"\nmutation Post { set(input: {req: true}) { ...Post ...Other } }\nfragment Post on User { id }\n"),
     ("import-only", "#import * from \"./other.graphql\"\nquery withImport { u { ...Other } }\n"),
+    // fragment names that are reserved words of the generated language, or the names the declaration file imports
+    ("fragment-named-like-a-reserved-word", "query getUser { u { ...delete } }\nfragment delete on User { id }\n"),
+    ("fragment-named-like-an-import", "query getUser { u { ...Schema ...TypedDocumentNode } }\nfragment Schema on User { id }\nfragment TypedDocumentNode on User { name }\n"),
     ("operation-names-ending-with-kind", "query userQuery { u { id } }\nmutation pingMutation { ping }\nsubscription tickSubscription { tick }\n"),
 ];
 
@@ -118,6 +121,21 @@ fn all_opts(quick: bool) -> Vec<Opts> {
 /// (exported name -> local const name), in a module text
 fn value_exports(text: &str) -> Result<(BTreeMap<String, String>, Vec<String>), String> {
     let decls = parse_module(text)?;
+    // a declaration named like something the module imports is a duplicate identifier
+    let imported: Vec<&String> = decls.iter().flat_map(|d| match d {
+        Decl::ImportNs { alias, .. } => vec![alias],
+        Decl::ImportNamed { names, .. } => names.iter().collect(),
+        _ => vec![],
+    }).collect();
+    for d in &decls {
+        let n = match d {
+            Decl::Const { name, .. } | Decl::Type { name, .. } => name,
+            _ => continue,
+        };
+        if imported.contains(&n) {
+            return Err(format!("declaration `{n}` conflicts with an import of the same name"));
+        }
+    }
     let mut exports = BTreeMap::new();
     let mut consts = vec![];
     for d in &decls {
@@ -255,7 +273,14 @@ pub fn run(args: &RunArgs) -> i32 {
                 let (dexp, dconsts) = match value_exports(dts) {
                     Ok(x) => x,
                     Err(e) => {
-                        let cause = if fname == "anonymous" && o.suffix[0] == Some("") { "anonymous-operation-with-empty-variable-suffix".to_string() } else { format!("{fname}:{}", tag()) };
+                        let cause = if fname == "anonymous" && o.suffix[0] == Some("") {
+                            "anonymous-operation-with-empty-variable-suffix".to_string()
+                        } else if e.contains("reserved word") || e.contains("conflicts with an import") {
+                            // which suffix makes the name harmless is the configuration's doing: one cause per file and declaration source
+                            format!("{fname}:{}", e.split('`').nth(1).unwrap_or(""))
+                        } else {
+                            format!("{fname}:{}", tag())
+                        };
                         rep.report(Violation { key: format!("unreadable:declaration[{cause}]"), what: format!("the declaration file is not well-formed: {e}"), case: case(json!({"dts": dts, "declaration_from": label})) });
                         return;
                     }
